@@ -17,7 +17,7 @@ import facts
 import q
 import tri
 from facts import walk, walk_with_path, peel, call_is, unblock, variant_of, strip_ref, subpat, pat_str, lit, or_pats, pat_binds
-from show import show
+from show import show, show_fn
 from tri import Child, SR, Unrecognised
 
 PASSES = ["optimiser::coalesce", "optimiser::shake_0", "optimiser::shake_1", "optimiser::rewrite", "optimiser::matrix"]
@@ -393,8 +393,18 @@ def check_group_unwrap(rep, arm, pname):
           "{<T>::expect(Iterator::next(IntoIterator::into_iter(expressions)), \"..\")} else {Expression::BooleanGroup(symbol, expressions)}}" % pname) in s
     rep.check(ok, "PASS-ARMS", "PASS-ARMS/%s/group-tail" % pname, arm["sp"], "group arm ends: re-run if the length changed, unwrap a group of one, else rebuild with the same symbol", s[-160:])
     # operands are shaken in order in both symbol branches
-    loops = [n for n in walk(arm["body"]) if n.get("k") == "For" and show(n["iter"]) == "expressions"]
-    okl = len(loops) == 2 and all(re.fullmatch(r"\{let \$shaken = optimiser::%s\(expression\); <T, A>::push\(scratch, shaken\)\}" % pname, show(l["body"])) for l in loops)
+    src_id = strip_ref(subpat(arm["pat"], 1)).get("id")
+    loops = [n for n in walk(arm["body"]) if n.get("k") == "For" and q.var_id(n["iter"]) == src_id]
+    def elementwise(l):
+        b = unblock(l["body"])
+        if b.get("k") != "Block" or len(b["stmts"]) != 2 or b.get("expr"):
+            return False
+        s0, s1 = b["stmts"]
+        if not (s0["k"] == "Let" and s0["pat"].get("k") == "Bind" and call_is(peel(s0["init"]), "optimiser::" + pname) and q.var_id(peel(s0["init"])["args"][0]) == l["pat"].get("id")):
+            return False
+        c = peel(s1["e"]) if s1["k"] == "Expr" else {}
+        return call_is(c, "::push") and q.var_id(c["args"][1]) == s0["pat"]["id"]
+    okl = len(loops) == 2 and all(elementwise(l) for l in loops)
     rep.check(okl, "ORDER-AND", "ORDER-AND/%s/group-elementwise" % pname, arm["sp"], "group operands are processed one by one in order", "%d loops" % len(loops))
 
 
